@@ -183,8 +183,26 @@ def enumerate_obligations(unit, woven, items):
     # prelude lemmas: every `proof fn` with a body outside item regions counts as one obligation per ensures clause
     outside = re.sub(r'/\*ITEM<([^*]*)\*/(.*?)/\*>ITEM\*/', lambda mm: re.sub(r'[^\n]', ' ', mm.group(0)), woven, flags=re.S)
     for m in re.finditer(r'\bproof\s+fn\s+(\w+)', rscan_strip(outside)):
-        obs.append(dict(id='%s/lemma/%s' % (unit, m.group(1)), fn=m.group(1), kind='lemma', props=None,
-                        line_a=line_of(woven, m.start()), line_b=line_of(woven, m.start()), item=False))
+        # a prelude proof fn directly preceded by `//#carries <label> [props]` states a property-carrying fact
+        # about extracted items (e.g. the value of a constant): it is an obligation of those properties.
+        ls = woven.rfind('\n', 0, m.start())
+        pls = woven.rfind('\n', 0, ls)
+        prevline = woven[pls + 1:ls].strip()
+        mc = re.match(r'//#carries\s+(\S+)\s*\[([^\]]*)\]', prevline)
+        ln = line_of(woven, m.start())
+        # extent of the proof fn: up to its closing brace
+        rest_toks = tokenize(woven[m.start():])
+        end_off = m.start()
+        for k, t in enumerate(rest_toks):
+            if t.kind == 'punct' and t.text == '{':
+                end_off = m.start() + rest_toks[match_close(rest_toks, k)].end
+                break
+        if mc:
+            obs.append(dict(id='%s/%s' % (unit, mc.group(1)), fn=m.group(1), kind='post', props=mc.group(2).replace(',', ' ').split(),
+                            line_a=ln, line_b=line_of(woven, end_off), item=False))
+        else:
+            obs.append(dict(id='%s/lemma/%s' % (unit, m.group(1)), fn=m.group(1), kind='lemma', props=None,
+                            line_a=ln, line_b=line_of(woven, end_off), item=False))
     return obs
 
 
@@ -311,9 +329,8 @@ def map_failures(vf, obligations):
                 best = in_item
             else:
                 for ob in obligations:
-                    if ob['kind'] == 'lemma' and lines and ob['line_a'] <= lines[0]:
-                        if best is None or ob['line_a'] > best['line_a']:
-                            best = ob
+                    if ob['kind'] == 'lemma' and lines and ob['line_a'] <= lines[0] <= ob['line_b']:
+                        best = ob
         if best is None:
             best = dict(id='?/unmapped@%s' % (lines[:1] or ['?'])[0], kind='unmapped', props=None, fn='?')
         failed.setdefault(best['id'], dict(ob=best, errors=[]))['errors'].append(e)
